@@ -586,7 +586,7 @@ func (s *stepper) callback(id, ln int, k doKind) func(sqlite.Conn, []byte) ([]by
 		case kCbFail0:
 			return nil, errCb
 		}
-		if _, err := c.Exec("ins", "INSERT INTO t(id) VALUES($id)", sqlite.Int64("$id", int64(id))); err != nil {
+		if err := insertShaped(c, id, ln); err != nil {
 			return nil, err
 		}
 		if k == kSQLFail { // second statement violates UNIQUE: the statement fails, the callback reports it
@@ -608,6 +608,38 @@ func (s *stepper) callback(id, ln int, k doKind) func(sqlite.Conn, []byte) ([]by
 	}
 }
 
+// insertShaped inserts row id; the FIRST modifying statement of the callback has one of several shapes (a function of id
+// and ln, so the op line determines it): the engine must open its automatic savepoint before it whatever it looks like.
+func insertShaped(c sqlite.Conn, id, ln int) error {
+	arg := sqlite.Int64("$id", int64(id))
+	var err error
+	switch (id + 3*ln) % 6 {
+	case 0, 1:
+		_, err = c.Exec("ins", "INSERT INTO t(id) VALUES($id)", arg)
+	case 2: // CTE-prefixed write: its normalized text does not start with INSERT
+		_, err = c.Exec("ins-cte", "WITH v(x) AS (VALUES($id)) INSERT INTO t(id) SELECT x FROM v", arg)
+	case 3:
+		_, err = c.Exec("ins-upsert", "INSERT INTO t(id) VALUES($id) ON CONFLICT(id) DO NOTHING", arg)
+	case 4:
+		_, err = c.Exec("ins-replace", "REPLACE INTO t(id) VALUES($id)", arg)
+	case 5: // DDL first (ExecUnsafe), then the row
+		if _, err = c.ExecUnsafe("ddl", fmt.Sprintf("CREATE TABLE IF NOT EXISTS scratch_%d (x INTEGER)", id)); err == nil {
+			_, err = c.Exec("ins", "INSERT INTO t(id) VALUES($id)", arg)
+		}
+	}
+	return err
+}
+
+func countScratch(c sqlite.Conn) int {
+	n := 0
+	r := c.Query("cnt-scratch", "SELECT count(*) FROM sqlite_master WHERE name LIKE 'scratch_%'")
+	if r.Next() {
+		v, _ := r.ColumnInt64(0)
+		n = int(v)
+	}
+	return n
+}
+
 // ctxFor returns the context a Do of kind k is called with
 func (s *stepper) ctxFor(k doKind) (context.Context, func()) {
 	switch k {
@@ -625,15 +657,16 @@ func (s *stepper) ctxFor(k doKind) (context.Context, func()) {
 }
 
 type snap struct {
-	cr, tr []int
-	co, to int64
-	nent   int
-	dbo    int64
+	cr, tr   []int
+	co, to   int64
+	nent     int
+	nscratch int
+	dbo      int64
 }
 
 func (s *stepper) snapshot() (sn snap) {
 	_ = s.e.View(context.Background(), "v", func(c sqlite.Conn) error { sn.cr, sn.co, _ = readState(c); return nil })
-	_ = s.e.VerifReadTx(func(c sqlite.Conn) error { sn.tr, sn.to, _ = readState(c); return nil })
+	_ = s.e.VerifReadTx(func(c sqlite.Conn) error { sn.tr, sn.to, _ = readState(c); sn.nscratch = countScratch(c); return nil })
 	sn.nent = len(s.m.entries)
 	sn.dbo = s.e.VerifDBOffset()
 	return
@@ -688,6 +721,9 @@ func (s *stepper) opDo(id, ln, extra int, k doKind) {
 		after := s.snapshot()
 		if !eq(before.cr, after.cr) || !eq(before.tr, after.tr) || before.co != after.co || before.to != after.to {
 			s.h.Viol("failed-do-left-db-change", "Do(%s) returned an error but the database changed: tx %v@%d -> %v@%d", kindNames[k], before.tr, before.to, after.tr, after.to)
+		}
+		if before.nscratch != after.nscratch {
+			s.h.Viol("failed-do-left-db-change", "Do(%s) returned an error but a table its callback created is still there (%d -> %d scratch tables)", kindNames[k], before.nscratch, after.nscratch)
 		}
 		if before.nent != after.nent {
 			s.h.Viol("failed-do-left-binlog-record", "Do(%s) returned an error but the binlog grew", kindNames[k])
